@@ -918,6 +918,85 @@ func shortUnlimited(res *vkit.Result, trials int) {
 // total is unknown". A fresh unlimited schedule with a 1 h window is started — lazily by its
 // first Next, or by Start — while other callers poll Left (what every instance does before each
 // shot). Nobody may ever see Left() == 0 or a refused token: the window is an hour long.
+// idleBehindDrainedPart: a composite that nobody starts explicitly (the engine never does) has an
+// unlimited part of a few milliseconds behind its first part. The first part is drawn empty —
+// by one caller or by several at once — then nobody draws for longer than the unlimited part
+// can last (a sleep never ends early, so its window is certainly over), and only then Left is
+// asked. Nothing is unknown any more: Left must be the exact number of requests still to come
+// (0 if none), and drawing them must give exactly that many.
+func idleBehindDrainedPart(res *vkit.Result, reps int) {
+	type shape struct {
+		name        string
+		first, rest int
+		build       func() core.Schedule
+	}
+	shapes := []shape{
+		{"[once 2, unlimited 8ms, once 3]", 2, 3, func() core.Schedule {
+			return schedule.NewComposite(schedule.NewOnce(2), schedule.NewUnlimited(8*time.Millisecond), schedule.NewOnce(3))
+		}},
+		{"[once 1, 0 rps for 5ms, unlimited 8ms]", 1, 0, func() core.Schedule {
+			return schedule.NewComposite(schedule.NewOnce(1), schedule.NewConst(0, 5*time.Millisecond), schedule.NewUnlimited(8*time.Millisecond))
+		}},
+		{"[once 4, unlimited 5ms, 0 rps for 3ms, once 1, once 2]", 4, 3, func() core.Schedule {
+			return schedule.NewComposite(schedule.NewOnce(4), schedule.NewUnlimited(5*time.Millisecond), schedule.NewConst(0, 3*time.Millisecond), schedule.NewOnce(1), schedule.NewOnce(2))
+		}},
+		{"[[once 3, unlimited 6ms], once 2]", 3, 2, func() core.Schedule {
+			return schedule.NewComposite(schedule.NewComposite(schedule.NewOnce(3), schedule.NewUnlimited(6*time.Millisecond)), schedule.NewOnce(2))
+		}},
+	}
+	for _, sh := range shapes {
+		for _, callers := range []int{1, 3} {
+			c := map[string]any{"tree": sh.name, "started": "by the first Next", "callers_drawing_the_first_part": callers, "idle_ms": 40}
+			bad := ""
+			for r := 0; r < reps && bad == ""; r++ {
+				s := sh.build()
+				var wg sync.WaitGroup
+				var refused atomic.Int64
+				per := make([]int, callers)
+				for i := 0; i < sh.first; i++ {
+					per[i%callers]++
+				}
+				for g := 0; g < callers; g++ {
+					wg.Add(1)
+					go func(n int) {
+						defer wg.Done()
+						for i := 0; i < n; i++ {
+							if _, ok := s.Next(); !ok {
+								refused.Add(1)
+							}
+						}
+					}(per[g])
+				}
+				wg.Wait()
+				if refused.Load() > 0 {
+					bad = fmt.Sprintf("round %d: %d of the first part's %d requests were refused", r, refused.Load(), sh.first)
+					break
+				}
+				time.Sleep(40 * time.Millisecond)
+				l := s.Left()
+				if l != sh.rest {
+					bad = fmt.Sprintf("round %d: the first part's %d requests were drawn, the unlimited part behind it (a few ms long) has been over for tens of ms: Left() = %d, want %d", r, sh.first, l, sh.rest)
+					break
+				}
+				got := 0
+				for i := 0; i < sh.rest+2; i++ {
+					if _, ok := s.Next(); ok {
+						got++
+					}
+				}
+				if got != sh.rest {
+					bad = fmt.Sprintf("round %d: Left() = %d, but %d more requests could be drawn", r, l, got)
+				}
+				res.Count("idle_behind_drained_part_rounds", 1)
+			}
+			if bad != "" {
+				res.Violate("C02/idle-behind-drained-part/left", bad, c)
+			}
+			res.Eval(vkit.JSON(c), true)
+		}
+	}
+}
+
 func unlimitedFirstUse(res *vkit.Result, rounds int) {
 	for _, how := range []string{"first-next", "start"} {
 		c := map[string]any{"tree": "unlimited(1h)", "started_by": how, "pollers": 6}
@@ -1128,6 +1207,7 @@ func main() {
 	vkit.CheckRaceLog(res, "C02")
 	shortUnlimited(res, vkit.N(400, 8000))
 	unlimitedFirstUse(res, vkit.N(3000, 30000))
+	idleBehindDrainedPart(res, vkit.N(4, 40))
 	factoryProducts(res)
 	if res.Counter("hook_hits/next:after-runlock") == 0 || res.Counter("hook_hits/left:after-runlock") == 0 || res.Counter("controlled_interleavings") < 50 {
 		res.Inconclusive(true, "yield hook not reached or too few controlled interleavings (is the verif tag on?)")
